@@ -39,7 +39,7 @@ def checker (prop : String) : Option Checker :=
   | "C20" => some (stateless C20.check)
   | "C03" => some (sysChecker ["C03", "C01"])
   | "C02" => some (sysChecker ["C02", "C01", "C07"])
-  | "C05" => some (sysChecker ["C05", "C01"])
+  | "C05" => some (sysChecker ["C05", "C01", "C06"])
   | "C14" => some (sysChecker ["C14", "C01"])
   | "C09" => some ⟨Sys.St, {}, C09.step⟩
   | "SYS" => some (sysChecker ["C01", "C02", "C03", "C05", "C07", "C14"])
